@@ -22,6 +22,7 @@ package copyh
 //	XX.n       dst.Exists returned an error
 //	SX.n       src.Fetch returned an error
 //	PX.n.r.s   dst.Push (r=0) / PushReference (r=1) returned an error; s=1: the content was stored
+//	TX.n.s     dst.Tag returned an error; s=1: the reference was set
 //	QK / QX    a prologue operation (MapRoot, Predecessors) returned / failed
 //	CN         the context of the call is about to be cancelled
 
@@ -58,7 +59,7 @@ import (
 
 // Fault is one injection point.
 type Fault struct {
-	Op     string `json:"op"`     // exists | fetch | push | pred | pre | post | skip | maproot
+	Op     string `json:"op"`     // exists | fetch | push | tag | pred | pre | post | skip | maproot
 	Node   int    `json:"node"`   // node id (-1 for maproot)
 	After  bool   `json:"after"`  // after the side effect of the real operation (else before it)
 	Cancel bool   `json:"cancel"` // cancel the context of the call instead of returning an error
@@ -409,11 +410,19 @@ func (d *fdst) Tag(ctx context.Context, t ocispec.Descriptor, ref string) error 
 	n := f.node(t)
 	f.ev(fmt.Sprintf("TB.%d", n), 0, 1)
 	f.pause(n)
+	if f.hit("tag", n, false) {
+		f.ev(fmt.Sprintf("TX.%d.0", n), 0, -1)
+		return errFault
+	}
 	err := f.under.Tag(ctx, t, ref)
 	f.pause(n)
 	if err != nil {
-		f.ev(fmt.Sprintf("TX.%d", n), 0, -1)
+		f.ev(fmt.Sprintf("TX.%d.0", n), 0, -1)
 		return err
+	}
+	if f.hit("tag", n, true) {
+		f.ev(fmt.Sprintf("TX.%d.1", n), 0, -1)
+		return errFault
 	}
 	f.ev(fmt.Sprintf("TE.%d", n), 0, -1)
 	return nil
@@ -983,6 +992,9 @@ func GenerateF(genseed uint64, stream string, thorough bool) *FCase {
 		if c.MapRoot && r.Chance(1, 3) {
 			ft.Op, ft.Node, ft.After = "maproot", -1, false
 		}
+		if c.API == "t" && r.Chance(1, 6) {
+			ft.Op, ft.Node = "tag", c.Root
+		}
 		if set[ft.Node] && (ft.Op == "push" || ft.Op == "fetch" || ft.Op == "pre" || ft.Op == "post") && r.Chance(2, 3) {
 			ft.Op = common.Pick(r, []string{"exists", "skip"})
 		}
@@ -1085,6 +1097,13 @@ func allPlacements(c *FCase, g *dag.Graph) []Fault {
 	}
 	if c.MapRoot {
 		out = append(out, Fault{Op: "maproot", Node: -1}, Fault{Op: "maproot", Node: -1, Cancel: true})
+	}
+	if c.API == "t" {
+		for _, after := range []bool{false, true} {
+			for _, cn := range []bool{false, true} {
+				out = append(out, Fault{Op: "tag", Node: c.Root, After: after, Cancel: cn})
+			}
+		}
 	}
 	return out
 }
